@@ -159,6 +159,9 @@ for _k in ("C02", "C06", "C08", "C09", "C05", "C01", "C04", "C17", "C18", "C19")
 _T["C18"] = ("Theorems resultError_one_part / resultError_two_parts: for every 16-bit code, every description and every NUL-free text of any length and content, in the one-part (malloc) and two-part (static heap, wrapped) layouts, the model of SCPI_ResultError writes exactly response(code, description, text) of Spec/ErrorString.lean; response_shape: that response is the code, a comma and one 488.2 string whose unescaped content is the longest prefix of description;text that fits 255 escaped characters; escape_injective; description_total over the generated error list.",
             "Lean kernel + standard axioms; translator for LIST_OF_ERRORS and the 255 limit; model tied to parser.c/error.c by differential testing in three configurations (texts wrapped around the heap end included) and an independent reader of the response",
             "Lean 4 theorem (loop invariant on the remaining budget) + differential correspondence")
+_T["C19"] = ("Theorems numeric_entry / channel_entry: for every well-formed numeric list (a,b:c,...) or channel list (@a!b:c!d,...) of Spec/ExprList.lean and every index, the model of the entry walkers returns OK with exactly the written number or range (token text and 32-bit integer value), the dimension count and the values up to the caller's capacity, and NO_MORE at or beyond the number of entries; for ANY content: stores_bounded (never more values than the capacity), numeric_ok_implies_prefix_wf, channel_error_pushes (-170 exactly on ERROR).",
+            "Lean kernel + standard axioms; list grammar over the decimal token specification of C13; integer values are strtol of the token text (Model/Prim.lean, libc specification); model tied to expression.c by exhaustive short bodies and generated lists",
+            "Lean 4 theorems (entry walkers = list grammar) + differential correspondence")
 _T["C01"] = ("PARTIAL BY NATURE. Theorems (Props/C01.lean): every recogniser keeps its cursor and token extent inside its input (from the C13 theorems, block recogniser included); the unit detector always makes progress and never leaves its input, so the unit loop of SCPI_Parse and the scan loop of SCPI_Input terminate; SCPI_Parse never exhausts its step budget, never composes a header before the start of the buffer and modifies no byte outside the message; SCPI_Input keeps position < buffer length for every chunk history; an over-long chunk copies nothing; SCPI_ParamCopyText and the array readers never store beyond the caller's capacity. These are statements about the algorithm as modelled: a C-level out-of-bounds read caused by a broken check-then-read pair, signed overflow or libc reading past a token cannot be exhibited by the model; for those the evidence is testing: every correspondence domain runs under ASan+UBSan with exact-size heap objects, canaries, a watchdog and the guarded buffer-tail poisoning hook, in four build configurations.",
             "Lean kernel + standard axioms for the bounds/termination theorems; memory safety and undefined arithmetic of the C code itself are observed by sanitizers under the generators (testing)",
             "Lean 4 bounds and termination theorems over the model + sanitizer-instrumented differential correspondence")
@@ -166,5 +169,5 @@ for _k, (_a, _b, _c) in _T.items():
     PROPS[_k]["level_text"], PROPS[_k]["level_note"], PROPS[_k]["technique"] = _a, _b, _c
 
 # properties whose theorem module is not complete yet are not claimed
-for _k in ("C02", "C06", "C08", "C09", "C05", "C04", "C17", "C19"):  # unclaimed
+for _k in ("C02", "C06", "C08", "C09", "C05", "C04", "C17"):  # unclaimed
     PROPS[_k]["unclaimed"] = True
